@@ -366,7 +366,9 @@ def random_config(rng, i):
         pass
     if feat in ('adapt', 'adaptlin') and c['problem'] != 'heat_forced':
         c['adaptivity'] = {'e_tol': rng.choice([1e-4, 1e-6])}
-        if feat == 'adaptlin' and kind == 'time':
+        if feat == 'adaptlin' and kind == 'time' and (nlev == 1 or c['P'] == 1):
+            # (the serial EstimateEmbeddedErrorLinearizedNonMPI refuses multi-level + several steps with
+            # NotImplementedError while the MPI flavour has no such guard: there is no serial counterpart to compare)
             c['adaptivity']['embedded_error_flavor'] = 'linearized'
         c['restol'] = -1
         c['maxiter'] = rng.randint(3, 5)
@@ -619,7 +621,13 @@ def run(ck):
                         else:
                             what = ('request handle of an incomplete non-blocking send is dropped (its buffer is released '
                                     'before the send completes)')
-                            match = {'kind': 'request-dropped-incomplete', 'site': f.get('site'), 'api': f.get('api')}
+                            # 'site' = where the send was posted; when the handle dies somewhere else that place
+                            # is appended, so that a NEW way of losing a request never coincides with a recorded one
+                            site = f.get('site')
+                            if f.get('dropped_in') and f.get('dropped_in') != site:
+                                site = '%s>%s' % (site, f.get('dropped_in'))
+                            match = {'kind': 'request-dropped-incomplete', 'site': site, 'api': f.get('api'),
+                                     'posted_by': f.get('posted_by'), 'dropped_by': f.get('dropped_by')}
                     else:
                         what = 'simulator monitor: %s' % k
                         match = {'kind': k, 'site': f.get('site'), 'api': f.get('api')}
